@@ -310,8 +310,8 @@ func (cx *Ctx) checkEndpointFuncs(r *Report) {
 	abs := w.Func("provider.(Endpoint).Absolute")
 	ae := w.Func("provider.absoluteEndpoint")
 	re := w.Func("provider.relativeEndpoint")
-	if rel == nil || abs == nil || ae == nil || re == nil {
-		r.Fail("R-SIB", "endpoint-functions", "", "Endpoint.Relative / Absolute / absoluteEndpoint / relativeEndpoint not found")
+	if rel == nil || abs == nil {
+		r.Fail("R-SIB", "endpoint-functions", "", "Endpoint.Relative / Absolute not found")
 		return
 	}
 	lv := cx.newVFlow("endpoint", rel, abs)
@@ -323,24 +323,11 @@ func (cx *Ctx) checkEndpointFuncs(r *Report) {
 	for _, ret := range returnsOf(abs) {
 		la.addAll(lv.Labels(ret.Results[0]), 0)
 	}
-	r.checkSources("R-SIB", "Endpoint.Relative", w.FnPos(rel), lr, []string{"const:*", "param:provider.(Endpoint).Relative/#0.path"}, []string{"const:/", "param:provider.(Endpoint).Relative/#0.path"}, false)
+	r.checkSources("R-SIB", "Endpoint.Relative", w.FnPos(rel), lr, []string{"const:*", "param:provider.(Endpoint).Relative/#0.path", "param:provider.(Endpoint).Absolute/#0.path"}, []string{"const:/"}, false)
 	r.checkSources("R-SIB", "Endpoint.Absolute", w.FnPos(abs), la, []string{"const:*", "param:provider.(Endpoint).Absolute/#0.path", "param:provider.(Endpoint).Absolute/#0.url", "param:provider.(Endpoint).Absolute/#1"}, []string{"param:provider.(Endpoint).Absolute/#0.path", "param:provider.(Endpoint).Absolute/#1"}, false)
-	// both go through relativeEndpoint
-	for _, f := range []*ssa.Function{rel, ae} {
-		ok := false
-		for _, c := range callsIn(f) {
-			if calleeOf(c) == re {
-				ok = true
-			}
-		}
-		r.Check(ok, "R-SIB", "via-relativeEndpoint:"+w.FuncKey(f), w.FnPos(f), "uses relativeEndpoint for the path part", w.FuncKey(f)+" no longer builds the path with relativeEndpoint: advertised and routed paths can differ")
-	}
-	okAE := false
-	for _, c := range callsIn(abs) {
-		if calleeOf(c) == ae {
-			okAE = true
-		}
-	}
+	// (which helpers the two share is their business - absoluteEndpoint / relativeEndpoint today -: what is decided
+	// below is what each of them returns, composed through whatever helpers they call)
+	_, _ = ae, re
 	// the exact composition: Relative = "/" + TrimPrefix(path, "/"); Absolute (no override) = TrimSuffix(host, "/") + the same
 	describe := func(fn *ssa.Function, v ssa.Value) string {
 		var out []string
@@ -382,7 +369,6 @@ func (cx *Ctx) checkEndpointFuncs(r *Report) {
 		r.Check(got == `strings.TrimSuffix(<#1 string>,"/") + "/" + strings.TrimPrefix(<provider.Endpoint>.path,"/")`, "R-SIB", "Endpoint.Absolute:composition", w.InstrPos(ret), got, "Endpoint.Absolute returns "+got+`, not the issuer without trailing slash + "/" + the path without leading slash: the advertised location is not where the route is`)
 	}
 	r.Check(nAbs >= 1, "R-SIB", "Endpoint.Absolute:composition#", w.FnPos(abs), "a computed (non-override) return exists", "Endpoint.Absolute has no return that composes issuer and path")
-	r.Check(okAE, "R-SIB", "Absolute-via-absoluteEndpoint", w.FnPos(abs), "Absolute uses absoluteEndpoint(host, path)", "Endpoint.Absolute no longer uses absoluteEndpoint")
 }
 
 // checkRoutesRegistered: the table GetRoutes returns is what the router serves: CreateRouter hands Endpoint and
@@ -551,6 +537,15 @@ func (cx *Ctx) checkMetadataOfThisRequest(r *Report) {
 		lw, ws := vm.CallArgSources(matchFnKey(w, "xml.WriteXMLMarshalled"), 1)
 		if len(ws) > 0 {
 			r.checkSources("R-VFG", "metadata:served-document", w.InstrPos(ws[0]), lw, []string{"alloc:{md.EntityDescriptorType}*"}, []string{"alloc:{md.EntityDescriptorType}*"}, false)
+		} else if lw2, ws2 := vm.CallArgSources(matchFnKey(w, "xml.Write"), 1); len(ws2) > 0 {
+			// marshalled first, written afterwards: the octets written are the serialisation of that document
+			// (two links: what is written is what xml.Marshal returned, what xml.Marshal was given is the document)
+			r.checkSources("R-VFG", "metadata:served-document", w.InstrPos(ws2[0]), vm.Deep(lw2), []string{"alloc:{bytes.Buffer}xml.Marshal/*", "via:(*bytes.Buffer).Bytes", "const:zero"}, []string{"alloc:{bytes.Buffer}xml.Marshal/*"}, false)
+			if lm, ms := vm.CallArgSources(matchFnKey(w, "xml.Marshal"), 0); len(ms) == 1 {
+				r.checkSources("R-VFG", "metadata:served-document:marshalled", w.InstrPos(ms[0]), lm, []string{"alloc:{md.EntityDescriptorType}*"}, []string{"alloc:{md.EntityDescriptorType}*"}, false)
+			} else {
+				r.Fail("R-VFG", "metadata:served-document:marshalled", w.InstrPos(ws2[0]), fmt.Sprintf("the metadata handler marshals at %d places: which serialisation is written cannot be told", len(ms)))
+			}
 		} else {
 			r.Fail("R-VFG", "metadata:served-document", "", "the metadata handler does not write a document")
 		}
